@@ -86,7 +86,7 @@ pub fn asan_replay(ctx: &Ctx, id: &str, out: &mut CaseOut) {
     let logs = ctx.work_dir.join("asan-logs");
     let _ = std::fs::create_dir_all(&logs);
     let opts = format!("detect_leaks=0:abort_on_error=1:halt_on_error=1:log_path={}/asan", logs.display());
-    match subrun(Path::new(&bin), id, ctx, &[("ASAN_OPTIONS", opts)], "asan") {
+    match subrun(Path::new(&bin), id, ctx, &[("ASAN_OPTIONS", opts), ("VERIF_STACK_MB", "512".into())], "asan") {
         Some((code, deaths, evals, _root)) => {
             let reports = std::fs::read_dir(&logs).map(|d| d.count()).unwrap_or(0) as u64;
             out.add("asan.evaluations", evals);
